@@ -80,13 +80,31 @@ class Guards:
         self.t = types
         self._esc: Dict[str, Dict[str, Chain]] = {}
         self._sites_memo: Dict[str, List[Site]] = {}
-        self.trusted_repo = {
-            "deep.logging.debug", "deep.logging.info", "deep.logging.warning", "deep.logging.error",
-            "deep.logging.exception",
-        }
+        # the repository's logging wrappers are trusted not to raise only as long as they are pure forwarders to the
+        # standard logging module (which formats lazily and swallows formatting errors)
+        self.trusted_repo = {q for q in ("deep.logging.debug", "deep.logging.info", "deep.logging.warning", "deep.logging.error",
+                                         "deep.logging.exception") if self._pure_log_forwarder(q)}
         self._stable = False
         self.extra_abstract_token = "Exception"
         self._compute()
+
+    def _pure_log_forwarder(self, qname: str) -> bool:
+        f = self.p.functions.get(qname)
+        if f is None:
+            return False
+        body = [st for st in f.node.body if not (isinstance(st, ast.Expr) and isinstance(st.value, ast.Constant))]
+        if len(body) != 1 or not isinstance(body[0], ast.Expr) or not isinstance(body[0].value, ast.Call):
+            return False
+        c = body[0].value
+        if not (isinstance(c.func, ast.Attribute) and isinstance(c.func.value, ast.Call) and norm(c.func.value.func) in ("logging.getLogger", "getLogger")):
+            return False
+        if not f.params or not c.args or not (isinstance(c.args[0], ast.Name) and c.args[0].id == f.params[0]):
+            return False            # the message must be handed over as it is: formatting belongs to the logging module
+        va = f.node.args.vararg.arg if f.node.args.vararg else None
+        rest = c.args[1:]
+        if not all(isinstance(a, ast.Starred) and isinstance(a.value, ast.Name) and a.value.id == va for a in rest):
+            return False
+        return all(isinstance(k.value, (ast.Name, ast.Constant)) for k in c.keywords)
 
     # ------------------------------------------------------------------ exception classes
     def exc_root(self, token: str):
@@ -282,8 +300,16 @@ class Guards:
                         continue
                     for tk, ch in self.escape_tokens(g).items():
                         toks.setdefault(tk, (self._link(fi, n),) + ch)
+                    if self.is_extension_point(g) and not (isinstance(n.value, ast.Name) and n.value.id in ("self", "cls")):
+                        # a concrete property of an extension interface read on somebody else's object: the third-party
+                        # subclass may override it, or may never have run the base constructor that sets its field
+                        toks.setdefault("Exception", (self._link(fi, n), (g.qname, g.loc(), "extension point: third-party implementation")))
                 if toks:
                     out.append(Site(n, "property", toks))
+            elif isinstance(n, ast.BinOp) and isinstance(n.op, ast.Mod) and not isinstance(n.left, (ast.Constant, ast.BinOp, ast.Call)) \
+                    and not any(tt[0] in ("ext", "extobj") and ("int" in tt[1] or "float" in tt[1] or "time" in tt[1]) for tt in self.t.type_of(n.left, fi)):
+                # %-formatting with a format string that is not a literal: placeholders and arguments may not match
+                out.append(Site(n, "format", {"TypeError": (self._link(fi, n),), "ValueError": (self._link(fi, n),)}))
             elif isinstance(n, ast.Subscript) and isinstance(n.ctx, (ast.Load, ast.Del)):
                 if isinstance(n.slice, ast.Slice):
                     continue
